@@ -8,6 +8,13 @@ code -> spec: TraceC08.tla advances the spec state with the spec's own actions a
 query: r = replica's answer, repeated queries never flip, and on acyclic unconditioned graphs
 r = SolverRef.  The number of solver instances (calculate_metrics) is recorded after each step to
 observe cache invalidation without source hooks.
+
+Cache epochs (TypegraphEpoch.tla): the same state machine started from populated CFG skeletons of
+3-5 nodes (chains, diamonds, ...), then build; sweep; (non-topological mutator | sweep)*; sweep.
+Every backward path of the skeleton is queried before and after the mutators while no node or
+edge is created - the stretch in which anything the implementation keys on the topology alone
+stays alive.  TraceC08 reports (COV lines) the queries whose backward path crosses a node that
+was conditioned after an identical query walked it; the driver's vacuity guards count them.
 """
 import argparse
 import json
@@ -25,8 +32,60 @@ BIG = dict(MaxNodes=100000, MaxVars=100000, MaxBindings=100000, MaxData=100000, 
            MaxSS=100000, UseCond="TRUE", AllowCycles="TRUE", OrderedEdges="FALSE",
            PasteOps="TRUE", FreshData="FALSE", MaxOps=100000, MaxQueries=100000,
            ExportMode='"none"')
+PATHCOND = {}   # family -> distinct (graph, query node, goals, conditioned walked node, condition)
 MUTATORS = ("NewCFGNode", "ConnectNew", "ConnectTo", "NewVariable", "AddBinding", "AddOrigin",
             "SetCondition", "PasteBinding", "AssignToNewVariable", "PasteBindingWithNewData")
+
+
+ALL_SKELETONS = ("chain3", "chain4", "chain5", "short3", "diamond4", "stemdiamond5",
+                 "diamondtail5", "twopaths5")
+NONTOPO = ("SetCondition", "NewVariable", "AddBinding", "AddOrigin")
+PASTE = ("PasteBinding", "AssignToNewVariable", "PasteBindingWithNewData")
+
+
+def tla_set(xs):
+  return "{" + ", ".join('"%s"' % x for x in xs) + "}"
+
+
+def epoch_cfg(**kw):
+  """cfg of TypegraphEpoch.tla (SpecE): Typegraph's constants + the epoch family's."""
+  d = dict(MaxNodes=5, MaxVars=3, MaxBindings=4, MaxData=2, MaxOrigins=5, MaxSS=0, UseCond="TRUE",
+           AllowCycles="FALSE", PasteOps="FALSE", FreshData="FALSE", MaxOps=0, MaxQueries=0,
+           ExportMode='"none"', SPEC="SpecE", INVARIANTS=["EpochOK", "ExportEpoch"],
+           Skeletons=tla_set(ALL_SKELETONS), Placement='"head"', EpochMuts=tla_set(["SetCondition"]),
+           MaxMut=1, CondInterior="FALSE", NeedCond="FALSE", MidSweeps="FALSE", WarmSize=1, SweepSize=1,
+           SweepOrders=tla_set(["up"]))
+  d.update(kw)
+  return tgraph.typegraph_cfg(**d)
+
+
+def epoch_families(thorough):
+  """(label, cfg kwargs, simulate N or None, min histories, min path-cond queries)."""
+  fams = [
+      # every (skeleton, placement of the third binding, node m, binding c): sweep; m.condition = c; sweep
+      ("epoch-cond", dict(SweepSize=2, SweepOrders=tla_set(["up", "down"] if thorough else ["up"])),
+       None, 400, 400),
+      # the same on interior nodes with one unrelated non-topological mutator before or after
+      ("epoch-noise", dict(Placement='"head0"', MaxMut=2, CondInterior="TRUE", NeedCond="TRUE",
+                           MidSweeps="TRUE" if thorough else "FALSE",
+                           EpochMuts=tla_set(NONTOPO if thorough else ("SetCondition", "AddBinding")),
+                           Skeletons=tla_set(ALL_SKELETONS if thorough else
+                                             ("chain3", "chain4", "diamond4"))),
+       None, 500, 500),
+      # random epochs: any placement, every non-topological mutator incl. the paste operations
+      ("epoch-sim", dict(Placement='"any"', MaxMut=4, MidSweeps="TRUE", SweepSize=2, MaxSS=1,
+                         MaxVars=4, MaxBindings=5, MaxOrigins=8, MaxData=3, INVARIANTS=["ExportEpoch"],
+                         EpochMuts=tla_set(NONTOPO + PASTE), SweepOrders=tla_set(["up", "down"])),
+       4000 if thorough else 120, None, 5),
+  ]
+  if thorough:
+    fams += [
+        ("epoch-cond-any", dict(Placement='"any"'), None, 9000, 9000),
+        # the per-transition family lifted to the skeletons: one mutator of any kind
+        ("epoch-any1", dict(EpochMuts=tla_set(NONTOPO + PASTE), MaxSS=1, MaxVars=3, MaxBindings=4,
+                            MaxOrigins=6), None, 2000, 400),
+    ]
+  return fams
 
 
 def trace_cfg():
@@ -46,6 +105,7 @@ class Live:
     self.vars = []
     self.b = {}        # real binding id -> binding
     self.datas = {}
+    self._bs = None    # bindings by id, valid until the next mutator
 
   def data(self, d):
     if d not in self.datas:
@@ -56,15 +116,26 @@ class Live:
     return self.binding_by_id()[k - 1]
 
   def binding_by_id(self):
-    out = {}
-    for v in self.vars:
-      for b in v.bindings:
-        out[b.id] = b
-    return [out[k] for k in sorted(out)]
+    if self._bs is None:
+      out = {}
+      for v in self.vars:
+        for b in v.bindings:
+          out[b.id] = b
+      self._bs = [out[k] for k in sorted(out)]
+    return self._bs
 
   def apply(self, o):
     op = o["op"]
     p = self.p
+    if op != "Query":
+      self.binding_by_id()   # ids in o refer to the bindings that exist before the op
+      try:
+        return self._mutate(o, op, p)
+      finally:
+        self._bs = None
+    return bool(self.nodes[o["n"] - 1].HasCombination([self.bind(x) for x in o["G"]]))
+
+  def _mutate(self, o, op, p):
     if op == "NewCFGNode":
       c = self.bind(o["c"]) if o["c"] else None
       self.nodes.append(p.NewCFGNode("n", c) if c is not None else p.NewCFGNode("n"))
@@ -94,8 +165,6 @@ class Live:
       self.vars.append(self.bind(o["b"]).AssignToNewVariable(where))
     elif op == "PasteBindingWithNewData":
       self.vars[o["v"] - 1].PasteBindingWithNewData(self.bind(o["b"]), self.data(o["d"]))
-    elif op == "Query":
-      return bool(self.nodes[o["n"] - 1].HasCombination([self.bind(x) for x in o["G"]]))
     else:
       raise common.Machinery("unknown op %r" % (o,))
     return None
@@ -216,39 +285,66 @@ def judge(run, hists, label):
     part = cases[off:off + step]
     nv, bad, r = tlc.validate_cases("TraceC08", part, cfg=trace_cfg(), timeout=3000, heap="4g")
     common.require(bad is None, "TraceC08 invariant cannot fail (verdicts are printed)")
-    out = [(off + rec["i"] - 1, rec["k"], rec["fails"]) for rec in tlc.parse_cases(r.out, "BAD")]
+    out = [(off + rec["i"] - 1, rec["k"], rec["fails"], rec) for rec in tlc.parse_cases(r.out, "BAD")]
     div = [(off + rec["i"] - 1, rec["k"]) for rec in tlc.parse_cases(r.out, "DIV")]
-    return nv, out, div
+    cov = [(off + rec["i"] - 1, rec["k"], rec["m"]) for rec in tlc.parse_cases(r.out, "COV")]
+    return nv, out, div, cov
   total = 0
+  pcs = run.cov.setdefault("pathcond_queries_by_family", {})
+  pcs.setdefault(label, 0)
   with cf.ThreadPoolExecutor(max_workers=shards) as ex:
-    for nv, out, div in ex.map(one, range(0, n, step)):
+    for nv, out, div, cov in ex.map(one, range(0, n, step)):
       total += nv
-      for idx, k, fails in out:
+      for idx, k, ms in cov:
+        # TLC: this query's backward path crosses node(s) ms, conditioned (None -> binding)
+        # after an identical query walked them, no node/edge created since
+        pcs[label] += 1
+        c = cases[idx]
+        g = c["obs"][k - 1]["g"]
+        o = c["ops"][k - 1]
+        PATHCOND.setdefault(label, set()).update(
+            (json.dumps([g["nn"], sorted(g["edges"]), g["bvar"], sorted(
+                (x["b"], x["n"], tuple(x["ss"])) for x in g["origins"])]), o["n"], tuple(o["G"]),
+             m, g["cond"][m - 1]) for m in ms)
+      for idx, k, fails, rec in out:
         c = cases[idx]
         o = c["ops"][k - 1]
         ob = c["obs"][k - 1]
         g = ob["g"]
-        cyc = is_cyclic(g)
+        # discriminator of the cyclic known findings: computed by TLC on the spec's own graph
+        cyc = bool(rec["cyc"]) if "cyc" in rec else is_cyclic(g)
         # last mutator kind before this query (the op whose effect was or was not seen)
         # mutators since the last time a new solver instance was observed (ns grew)
+        # (queries after the latest mutator are skipped: the failing query need not be the
+        # first one of its sweep)
         prev = []
         for j in range(k - 2, -1, -1):
           x = c["ops"][j]
           if x["op"] == "Query":
-            if j > 0 and c["obs"][j]["ns"] > max([q["ns"] for q in c["obs"][:j]] or [0]):
+            if prev and c["obs"][j]["ns"] > max([q["ns"] for q in c["obs"][:j]] or [0]):
               break
           elif x["op"] != "End":
             prev.append(x["op"])
         last_mut = "+".join(sorted(set(prev))) if prev else "none"
+        # spec-computed description of the cache epoch of the failing query (TraceC08.tla)
+        renewed = bool(rec.get("renewed"))
+        pc = list(rec.get("pc", []))
+        epoch = "; latest mutator block %s" % "+".join(sorted(rec.get("muts", []))) if rec.get("muts") else ""
+        if renewed:
+          epoch += "; a NEW solver instance answered (the stale state outlives the solver)"
+        if pc:
+          epoch += ("; the query's backward path crosses node(s) %s whose condition was set (None -> "
+                    "binding) after an identical query had walked them, no node/edge created since "
+                    "(a result keyed on the CFG topology survived the condition change)" % pc)
         for f in fails:
           if cyc and f in ("fresh", "flip"):
             key = "C08:%s:cyclic:provisional-true-memo" % f
           elif f == "fresh":
-            key = "C08:fresh:stale-after:%s" % last_mut
+            key = "C08:fresh:stale-after:%s%s" % (last_mut, ":solver-renewed" if renewed else "")
           else:
             key = "C08:%s:%s" % (f, "cyclic" if cyc else "acyclic")
-          run.violation(key, "%s: Query(node %d, goals %s) long-lived=%s replica=%s after history of %d ops (last mutator %s)" % (
-              f, o["n"], o["G"], ob["r"], ob["rr"], k - 1, last_mut),
+          run.violation(key, "%s: Query(node %d, goals %s) long-lived=%s replica=%s after history of %d ops (last mutator %s)%s" % (
+              f, o["n"], o["G"], ob["r"], ob["rr"], k - 1, last_mut, epoch),
               {"history": c["ops"][:k], "graph": g, "family": label})
       for idx, k in div:
         run.diverge({"case": label, "op": cases[idx]["ops"][k - 1],
@@ -339,6 +435,41 @@ def main():
     run.sample({label: hs[0][:10]})
     print("  %s: %d histories t=%.0fs" % (label, len(hs), __import__("time").time() - run.t0), flush=True)
     hists += hs
+  # 3. cache epochs on skeletons of 3-5 nodes (TypegraphEpoch.tla)
+  ep_states = ep_trans = 0
+  for j, (label, ekw, nsim_e, min_h, min_pc) in enumerate(epoch_families(thorough)):
+    if nsim_e:
+      r = tlc.run("TypegraphEpoch", epoch_cfg(**ekw), workers=1, timeout=3000, heap="8g",
+                  seed=run.seed * 10 + 5 + j, simulate="num=%d" % nsim_e, depth=3 * ekw["MaxMut"] + 4)
+      common.require(r.violated is None, "TypegraphEpoch violates %s" % r.violated)
+      # (in simulation the export fires for every candidate final sweep: keep distinct ones)
+      hs = list({json.dumps(c["h"], sort_keys=True): c["h"] for c in r.cases}.values())[:nsim_e]
+      common.require(len(hs) >= nsim_e // 2, "simulation %s gave %d histories" % (label, len(hs)))
+    else:
+      r = tlc.run("TypegraphEpoch", epoch_cfg(**ekw), workers=1, timeout=3000, heap="8g")
+      common.require(r.violated is None, "TypegraphEpoch violates %s" % r.violated)
+      hs = [c["h"] for c in r.cases]
+      ep_states += r.distinct
+      ep_trans += r.generated
+      common.require(len(hs) >= min_h, "vacuity: %s exported only %d histories" % (label, len(hs)))
+    run.put("histories_" + label, len(hs))
+    total += judge(run, hs, label)
+    npc = run.cov["pathcond_queries_by_family"].get(label, 0)
+    common.require(npc >= min_pc, "vacuity: %s judged only %d queries across a node conditioned after "
+                   "the path was walked (need %d)" % (label, npc, min_pc))
+    run.sample({label: hs[len(hs) // 2][-12:]})
+    print("  %s: %d histories, %d path-cond queries t=%.0fs" % (
+        label, len(hs), npc, __import__("time").time() - run.t0), flush=True)
+    hists += hs
+  run.put("epoch_states", ep_states)
+  run.put("epoch_transitions", ep_trans)
+  run.put("pathcond_distinct_by_family", {k: len(v) for k, v in sorted(PATHCOND.items())})
+  # every skeleton's (walked path, conditioned interior node, condition) was judged, including
+  # conditions that cannot hold (a sibling binding of the goal) and ones that can
+  cond_combos = PATHCOND.get("epoch-cond", set())
+  common.require(len({(c[0], c[3], c[4]) for c in cond_combos}) >= 100,
+                 "vacuity: epoch-cond covered only %d (graph, node, condition) combinations" % len(
+                     {(c[0], c[3], c[4]) for c in cond_combos}))
   run.put("traces_validated_against_impl", total)
   run.put("evaluations", total)
   run.put("distinct_nontrivial", len({json.dumps(h, sort_keys=True) for h in hists if sum(
@@ -346,7 +477,9 @@ def main():
           x["op"] != "Query" for x in h[k + 1:])) >= 1}))
   run.put("rule", "one case = one history; non-trivial = a mutator follows a query (cache could leak)")
   common.require(run.cov.get("mutations_after_query", 0) > 100, "vacuity: no mutation after a query")
-  run.assumptions += ["replica = fresh Program fed the same mutators in the same order",
+  run.assumptions += ["epoch families: skeletons %s, three initial bindings (two of one variable), "
+                      "sweeps of goal sets <= 2" % ", ".join(ALL_SKELETONS),
+                      "replica = fresh Program fed the same mutators in the same order",
                       "solver invalidation is observed through calculate_metrics().solver_metrics (informational)"]
   return run.finish()
 
